@@ -1,11 +1,147 @@
-(* C01 — Ingested values come back unchanged from a plain SELECT.  Property theorems only. *)
-From Coq Require Import ZArith List Bool.
-From LV Require Import Model.CodecBase Model.Codec Model.FloatEnc Proofs.FloatEnc.
+(* C01 — Ingested values come back unchanged from a plain SELECT.
+   Property theorems only; each is closed by [exact <lemma>] so that the statement is what is pinned.
+
+   Vocabulary (Model/): [push_op] are the calls a ColumnBuffer receives from the ingestion path,
+   [run_pushes]/[finalize] the column writer, [column_cells] the query-path decoder applied to the
+   finished column, [stored] their composition, [expected] the specification (supplied cells in
+   order, NULL where nothing was supplied, documented type degradation).  [f2s] is f64's Display
+   (external code); the only fact used about it is that its output is shorter than 2^24 bytes. *)
+From Coq Require Import ZArith List Bool Lia.
+From LV Require Import Model.CodecBase Model.IntEnc Model.FloatEnc Model.StrEnc Model.Codec
+  Model.ColumnBuffer Model.Ingest
+  Proofs.CodecBase Proofs.Codec Proofs.IntEnc Proofs.FloatEnc Proofs.StrEnc Proofs.ColumnBuffer Proofs.Ingest.
 Import ListNotations.
 Open Scope Z_scope.
 
-(* Float columns are bit-exact: every 64-bit pattern (no arithmetic is ever applied to a stored
-   float), NULL exactly where the bitmap has no bit, whatever the writer put into the NULL slots. *)
+(* ---------------------------------------------------------------------------------------------- *)
+(* The property, for every ingestion history of a column buffer: what SELECT decodes from the
+   finished column is exactly what was supplied.  Domain ([ops_ok]): pushes as the ingestion path
+   issues them (no caller-supplied null map), integers in i64, strings shorter than 2^24 bytes, and
+   no NULL after the buffer became Mixed (F4).  [int_guard] excludes, for a buffer that ends as an
+   integer buffer, the overflow classes F10 / F19 (see [int_data_ok]). *)
+Theorem C01_roundtrip :
+  forall (f2s : Z -> str), (forall f, zlen (f2s f) < 16777216) ->
+  forall ops : list push_op,
+    ops_ok KEmpty ops ->
+    int_guard (run_pushes f2s (colbuf_null 0) ops) ->
+    stored f2s ops = Val (expected f2s ops).
+Proof. exact stored_expected. Qed.
+
+(* Without the guards the statement is false of the faithful model: *)
+Theorem C01_full_statement_refuted : ~ C01_full_statement.
+Proof. exact Proofs.Ingest.C01_full_statement_refuted. Qed.
+
+Theorem C01_F4_witness :
+  stored no_display [PStrs [[97]] None; PInts [1] None; PNulls 1] = Val [CStr [97]; CStr [49]] /\
+  expected no_display [PStrs [[97]] None; PInts [1] None; PNulls 1] = [CStr [97]; CStr [49]; CNull].
+Proof. exact F4_witness. Qed.
+
+Theorem C01_F10_witness :
+  stored no_display [PInts [i64_min + 1; i64_max - 1] None] = Panic SubOverflow.
+Proof. exact F10_witness. Qed.
+
+Theorem C01_F19_witness :
+  stored no_display [PInts [i64_min] None; PNulls 1] = Panic SubOverflow.
+Proof. exact F19_witness. Qed.
+
+(* The table-level front end (InputColumn::from_column_data + Buffer::push_typed_cols +
+   extend_to_largest, one column's view) only issues ingestion pushes: whenever it does not panic
+   ([col_ops] = Some), no push carries a caller-supplied null map and no NULL count is negative. *)
+Theorem C01_ingest_ops :
+  forall (items : list batch_item) (created : bool) (before : Z) (ops : list push_op),
+    0 <= before -> Forall (fun it => 0 <= snd it) items ->
+    col_ops created before items = Some ops -> Forall ingest_op ops.
+Proof. exact col_ops_ingest. Qed.
+
+(* ---------------------------------------------------------------------------------------------- *)
+(* The null bitmap, for every ingestion history: bit i is set iff cell i is not NULL; no bit at or
+   beyond the length; a buffer without a bitmap is either entirely NULL (still untyped) or has no NULL. *)
+Theorem C01_bitmap :
+  forall (f2s : Z -> str), (forall f, zlen (f2s f) < 16777216) ->
+  forall ops : list push_op,
+    ops_ok KEmpty ops ->
+    let cb := run_pushes f2s (colbuf_null 0) ops in
+    let cs := expected f2s ops in
+    cb_len cb = zlen cs /\
+    match cb_present cb with
+    | Some p =>
+        (forall i, (i < length cs)%nat -> (bv_get p (Z.of_nat i) = true <-> nth i cs CNull <> CNull)) /\
+        (forall j, cb_len cb <= j -> bv_get p j = false)
+    | None => (cb_buf cb = TEmpty /\ cs = repeat CNull (length cs)) \/ Forall non_null cs
+    end.
+Proof. exact bitmap_correct. Qed.
+
+(* ---------------------------------------------------------------------------------------------- *)
+(* Integers.  Whatever column IntegerColumn::new_boxed returns — any rung of the width/offset
+   ladder, plain or delta, with or without a null map, any statistics handed in — decodes to the
+   values it was given, and the decoder's additions do not overflow. *)
+Theorem C01_int_roundtrip :
+  forall (xs : list Z) (mn mx : Z) (delta : bool) (null : option (list Z)) (col : column),
+    i64s xs ->
+    new_boxed xs mn mx delta null = Val col ->
+    decode_column col = Val (int_sval xs null).
+Proof. exact new_boxed_decode. Qed.
+
+(* The plain path returns a column for all statistics that bound the values, except min = i64::MIN
+   with max = 0 (F19), where it panics: *)
+Theorem C01_int_plain_total :
+  forall (xs : list Z) (mn mx : Z) (null : option (list Z)),
+    i64_min <= mn -> mx <= i64_max -> mn <= mx -> bounded mn mx xs ->
+    ~ (mn = i64_min /\ mx = 0) ->
+    exists col, new_boxed xs mn mx false null = Val col.
+Proof. exact new_boxed_plain_total. Qed.
+
+Theorem C01_int_plain_refuted :
+  exists xs mn mx, i64_min <= mn /\ mx <= i64_max /\ mn <= mx /\ bounded mn mx xs /\
+                   new_boxed xs mn mx false None = Panic SubOverflow.
+Proof. exact new_boxed_plain_refuted. Qed.
+
+(* The delta path returns a column when every step fits an i64 (else F10), no step is exactly
+   -2^63, the first value is not i64::MIN, and the maximum is at least 2^32 below i64::MAX: *)
+Theorem C01_int_delta_total :
+  forall (v0 : Z) (r : list Z) (mn mx : Z) (null : option (list Z)),
+    i64s (v0 :: r) -> delta_safe v0 r ->
+    bounded mn mx (v0 :: r) -> In mn (v0 :: r) -> In mx (v0 :: r) ->
+    mx <= 9223372032559808511 ->
+    v0 <> i64_min -> (forall d, In d (diffs v0 r) -> d <> i64_min) ->
+    exists col, new_boxed (v0 :: r) mn mx true null = Val col.
+Proof. exact new_boxed_delta_total. Qed.
+
+(* IntColBuffer's own statistics select delta coding for a column whose step overflows (F10): *)
+Theorem C01_int_delta_refuted :
+  exists data, i64s data /\
+    let st := istats_push_all istats_init data in
+    st_allow st = true /\ delta_decision st (zlen data) = true /\
+    int_finalize data st None = Panic SubOverflow.
+Proof. exact int_finalize_delta_refuted. Qed.
+
+(* ---------------------------------------------------------------------------------------------- *)
+(* Strings: all byte strings shorter than 2^24, all three layouts (packed, hex-packed, dictionary with
+   u8/u16/u32 indices), with or without a null map; and the string writer never panics. *)
+Theorem C01_string_roundtrip :
+  forall (ss : list str) (present : option (list Z)) (col : column),
+    short_strings ss ->
+    str_finalize ss present = Val col ->
+    decode_column col = Val (str_sval ss present).
+Proof. exact str_finalize_decode. Qed.
+
+Theorem C01_string_total :
+  forall (ss : list str) (present : option (list Z)), exists col, str_finalize ss present = Val col.
+Proof. exact str_finalize_total. Qed.
+
+(* the layout decision is arbitrary as far as correctness goes: any flags consistent with the data *)
+Theorem C01_string_roundtrip_any_flags :
+  forall (ss : list str) (lhex uhex : bool) (tbytes : Z) (present : option (list Z)) (col : column),
+    short_strings ss ->
+    (lhex = true -> forallb is_lowercase_hex ss = true) ->
+    (uhex = true -> forallb is_uppercase_hex ss = true) ->
+    fast_build_string_column ss lhex uhex tbytes present = Val col ->
+    decode_column col = Val (str_sval ss present).
+Proof. exact fast_build_decode. Qed.
+
+(* ---------------------------------------------------------------------------------------------- *)
+(* Floats are bit-exact: every 64-bit pattern, NULL exactly where the bitmap has no bit, whatever the
+   writer put into the NULL slots. *)
 Theorem C01_float_roundtrip :
   forall (fs : list Z) (null : option (list Z)),
     column_cells (float_new_boxed fs null) =
@@ -14,3 +150,69 @@ Theorem C01_float_roundtrip :
          | Some p => mask_cells p 0 (map CFloat fs)
          end).
 Proof. exact float_roundtrip. Qed.
+
+(* ---------------------------------------------------------------------------------------------- *)
+(* Generic compression of section 0 (lz4 / pco / pco-fp32 are external: any [enc]/[dec] with
+   dec (enc s) = s on the sections they are applied to): every choice is transparent. *)
+Theorem C01_compression_transparent :
+  forall (comp : Type) (enc : comp -> section -> list Z) (dec : comp -> list Z -> section)
+         (applicable : comp -> section -> Prop),
+    (forall k s, applicable k s -> dec k (enc k s) = s) ->
+    forall (choice : option comp) (c : column),
+      (forall k s0 rest, choice = Some k -> c_data c = s0 :: rest -> applicable k s0) ->
+      column_cells (decompress comp dec (compress comp enc choice c)) = column_cells c.
+Proof. exact compressed_cells. Qed.
+
+(* ---------------------------------------------------------------------------------------------- *)
+(* Non-vacuity: concrete histories inside the domain of C01_roundtrip, evaluated. *)
+
+Definition ex_display : Z -> str := fun _ => [63].
+
+(* nullable u8-with-offset integers in a column first seen after 9 rows, with a trailing NULL:
+   the hypotheses of C01_roundtrip hold, so it applies *)
+Example C01_example_offset_nullable :
+  let ops := [PNulls 9; PInts [-200; -100; -255] None; PNulls 1; PInts [-1] None] in
+  ops_ok KEmpty ops /\ int_guard (run_pushes ex_display (colbuf_null 0) ops) /\
+  (exists col, finalize ex_display (run_pushes ex_display (colbuf_null 0) ops) = Val col /\
+               c_ops col = [OpPush 1; OpNullable; OpAdd EU8 (-255)]) /\
+  stored ex_display ops =
+    Val (repeat CNull 9 ++ [CInt (-200); CInt (-100); CInt (-255); CNull; CInt (-1)]).
+Proof.
+  cbn zeta. split; [|split; [|split]].
+  - cbn. repeat split; try lia; try discriminate; repeat constructor; unfold i64_min, i64_max; try lia;
+      intros [H _]; discriminate.
+  - vm_compute. intros [H _]. discriminate.
+  - eexists. split; vm_compute; reflexivity.
+  - rewrite C01_roundtrip.
+    + vm_compute. reflexivity.
+    + intros f. cbn. lia.
+    + cbn. repeat split; try lia; try discriminate; repeat constructor; unfold i64_min, i64_max; try lia;
+        intros [H _]; discriminate.
+    + vm_compute. intros [H _]. discriminate.
+Qed.
+
+(* a delta-coded run *)
+Example C01_example_delta :
+  let ops := [PInts [100; 101; 103; 110; 111; 115; 120; 121; 122; 130; 131] None] in
+  (exists col, finalize ex_display (run_pushes ex_display (colbuf_null 0) ops) = Val col /\
+               c_ops col = [OpDelta EU8]) /\
+  stored ex_display ops = Val (expected ex_display ops).
+Proof. cbn zeta. split; [eexists; split; vm_compute; reflexivity|vm_compute; reflexivity]. Qed.
+
+(* a 65-row bitmap, int then float (degrades to float), a 256-byte string next to hex strings *)
+Example C01_example_bitmap_65 :
+  let ops := [PInts (repeat 7 64) None; PNulls 1; PFloats [4607182418800017408] None] in
+  stored ex_display ops = Val (expected ex_display ops) /\
+  nth 64 (expected ex_display ops) (CInt 0) = CNull /\
+  nth 0 (expected ex_display ops) CNull = CFloat 4619567317775286272.
+Proof. cbn zeta. repeat split; vm_compute; reflexivity. Qed.
+
+Example C01_example_strings :
+  let long := repeat 97 256 in
+  let ops1 := [PStrs [long; [98]; long; [99]] None] in
+  let ops2 := [PStrs [[100;101;97;100;98;101;101;102;48;49;50;51]; [48;49;50;51;52;53;54;55;56;57;97;98]] None; PNulls 1] in
+  stored ex_display ops1 = Val (expected ex_display ops1) /\
+  stored ex_display ops2 = Val (expected ex_display ops2) /\
+  (exists col, finalize ex_display (run_pushes ex_display (colbuf_null 0) ops2) = Val col /\
+               c_ops col = [OpUnhex false 24; OpPush 1; OpNullable]).
+Proof. cbn zeta. repeat split; try (vm_compute; reflexivity). eexists; split; vm_compute; reflexivity. Qed.
